@@ -225,6 +225,57 @@ Definition c09_step (rf0 : nat) (g : regs) (prev : obs) (e : event) (cur : obs) 
   | _ => Nat.eqb (length starts) 0
   end.
 
+(** ** concurrent pairs: what the properties say when a second request is issued while the first is in
+    flight (the intermediate state is not observable; the rules use the script of the first request) *)
+Definition lift (f : obs -> event -> obs -> bool) (pairf : obs -> event -> event -> obs -> bool)
+  (prev : obs) (x : xevent) (cur : obs) : bool :=
+  match x with One e => f prev e cur | Two a b => pairf prev a b cur end.
+
+(** C03: if the failures of the write in flight take the RW count below the quorum, the queued
+    write / sync / unmap is refused and touches nobody *)
+Definition c03_pair (rf0 : nat) (prev : obs) (a b : event) (cur : obs) : bool :=
+  Bool.eqb (o_ro cur) (negb (quorum_ok rf0 (o_replicas cur)))
+  && Nat.eqb (o_rwc cur) (count_rw (o_replicas cur))
+  && match a, b with
+     | Write _ _ _ fs1, Write wid2 _ _ _ =>
+         let left := filter (fun p => negb (flt fs1 (fst p) KWrite || flt fs1 (fst p) KWriteAp)) (o_replicas prev) in
+         if quorum_ok rf0 (o_replicas prev) && negb (quorum_ok rf0 left)
+         then negb (is_ack cur) && forallb (fun x => negb (holds cur x wid2)) (seq 0 (length (o_reps cur)))
+         else true
+     | Write _ _ _ fs1, Sync _ | Write _ _ _ fs1, Unmap _ =>
+         let left := filter (fun p => negb (flt fs1 (fst p) KWrite || flt fs1 (fst p) KWriteAp)) (o_replicas prev) in
+         if quorum_ok rf0 (o_replicas prev) && negb (quorum_ok rf0 left) then negb (is_ack cur) else true
+     | _, _ => true
+     end.
+
+(** C13: a snapshot accepted while all RF replicas were RW is on every one of them, whatever request
+    (a removal, a monitor failure) was waiting behind it *)
+Definition c13_pair (rf0 : nat) (prev : obs) (a b : event) (cur : obs) : bool :=
+  match a with
+  | Snapshot n fs =>
+      if Nat.eqb (count_rw (o_replicas prev)) rf0 && Nat.eqb (length (o_replicas prev)) rf0
+      then match o_res1 cur with
+           | Some ROk => forallb (fun x => if flt fs x KSnap then true else mem n (chain_of cur x)) (addrs_of (o_replicas prev))
+           | _ => true
+           end
+      else true
+  | _ => true
+  end.
+
+(** C04 / C05: a read queued behind a write that detaches replicas is served by a replica that is still
+    listed RW afterwards *)
+Definition c04_pair (rf0 : nat) (prev : obs) (a b : event) (cur : obs) : bool :=
+  match b with
+  | Read _ _ _ _ =>
+      match o_served cur with
+      | Some x => mem x (rw_of (o_replicas prev)) && negb (io_kind_fail a x)
+      | None => true
+      end
+  | _ => true
+  end.
+
+Definition nopair (prev : obs) (a b : event) (cur : obs) : bool := true.
+
 (** ** running the oracles over a whole observed trace *)
 Record verdict := mkverdict {
   v_diff : option (nat * nat);
@@ -236,21 +287,23 @@ Definition obs0 (rf0 n : nat) (w0 : world) : obs := observe n (init rf0 w0) ROk 
 
 (** is the controller quiescent after the observed prefix: the harness reports the number of
     undelivered monitor notifications through the pseudo-field [pending] (list aligned with obs) *)
-Fixpoint walk (f : obs -> event -> obs -> bool) (i : nat) (prev : obs) (es : list event) (os : list obs) : option nat :=
+Fixpoint walk (f : obs -> xevent -> obs -> bool) (i : nat) (prev : obs) (es : list xevent) (os : list obs) : option nat :=
   match es, os with
   | e :: t, o :: os' => if f prev e o then walk f (S i) o t os' else Some i
   | _, _ => None
   end.
 
-Fixpoint walk_q (f : bool -> obs -> event -> obs -> bool) (i : nat) (prev : obs) (es : list event) (os : list obs) (qs : list bool) : option nat :=
+Fixpoint walk_q (f : bool -> obs -> xevent -> obs -> bool) (i : nat) (prev : obs) (es : list xevent) (os : list obs) (qs : list bool) : option nat :=
   match es, os, qs with
   | e :: t, o :: os', q :: qs' => if f q prev e o then walk_q f (S i) o t os' qs' else Some i
   | _, _, _ => None
   end.
 
-Fixpoint walk_g (f : regs -> obs -> event -> obs -> bool) (i : nat) (g : regs) (prev : obs) (es : list event) (os : list obs) : option nat :=
+Definition xregs_upd (g : regs) (x : xevent) : regs :=
+  match x with One e => regs_upd g e | Two a b => regs_upd (regs_upd g a) b end.
+Fixpoint walk_g (f : regs -> obs -> xevent -> obs -> bool) (i : nat) (g : regs) (prev : obs) (es : list xevent) (os : list obs) : option nat :=
   match es, os with
-  | e :: t, o :: os' => if f g prev e o then walk_g f (S i) (regs_upd g e) o t os' else Some i
+  | e :: t, o :: os' => if f g prev e o then walk_g f (S i) (xregs_upd g e) o t os' else Some i
   | _, _ => None
   end.
 
@@ -262,13 +315,13 @@ Definition check_case (x : xcase) : verdict :=
   let o0 := obs0 rf0 (c_n c) (c_world c) in
   mkverdict
     (first_diff (c_n c) 0 (init rf0 (c_world c)) (c_events c) (c_obs c))
-    (walk (c02_step rf0) 0 o0 (c_events c) (c_obs c))
-    (walk (c03_step rf0) 0 o0 (c_events c) (c_obs c))
-    (walk (c04_step rf0) 0 o0 (c_events c) (c_obs c))
-    (walk (c05_step rf0) 0 o0 (c_events c) (c_obs c))
-    (walk_g (c09_step rf0) 0 [] o0 (c_events c) (c_obs c))
-    (walk_q (c13_step rf0) 0 o0 (c_events c) (c_obs c) (x_quiet x))
-    (walk_q (c18_step rf0) 0 o0 (c_events c) (c_obs c) (x_quiet x)).
+    (walk (lift (c02_step rf0) nopair) 0 o0 (c_events c) (c_obs c))
+    (walk (lift (c03_step rf0) (c03_pair rf0)) 0 o0 (c_events c) (c_obs c))
+    (walk (lift (c04_step rf0) (c04_pair rf0)) 0 o0 (c_events c) (c_obs c))
+    (walk (lift (c05_step rf0) nopair) 0 o0 (c_events c) (c_obs c))
+    (walk_g (fun g => lift (c09_step rf0 g) nopair) 0 [] o0 (c_events c) (c_obs c))
+    (walk_q (fun q => lift (c13_step rf0 q) (c13_pair rf0)) 0 o0 (c_events c) (c_obs c) (x_quiet x))
+    (walk_q (fun q => lift (c18_step rf0 q) (fun prev a b cur => c18_step rf0 q prev (SetMode 0%nat WO) cur)) 0 o0 (c_events c) (c_obs c) (x_quiet x)).
 
 Definition on (o : option nat) : nat := match o with Some i => S i | None => 0%nat end.
 
@@ -290,12 +343,13 @@ Fixpoint bad_cases (i : nat) (cs : list xcase) : list (nat * (nat * nat) * list 
     8 a start signal sent, 16 a checkpoint set, 32 a replica promoted by verify, 64 a monitor fired,
     128 a failed operation (any), 256 three or more RW replicas at some point *)
 Definition b2n (b : bool) (k : nat) : nat := if b then k else 0%nat.
-Fixpoint flags_walk (n : nat) (s : cst) (es : list event) (acc : nat * nat * nat * nat * nat * nat * nat * nat * nat)
+Fixpoint flags_walk (n : nat) (s : cst) (es : list xevent) (acc : nat * nat * nat * nat * nat * nat * nat * nat * nat)
   : nat * nat * nat * nat * nat * nat * nat * nat * nat :=
   match es with
   | [] => acc
-  | e :: t =>
-      let '(s1, r, ef) := step s e in
+  | x :: t =>
+      let '(s1, r, ef, _) := xstep s x in
+      let e := match x with One e => e | Two _ b => b end in
       let '(f1, f2, f3, f4, f5, f6, f7, f8, f9) := acc in
       let ack := res_eqb r ROk in
       let acc' :=
